@@ -26,7 +26,10 @@ type dynCase struct {
 	Depths []int `json:"depths"` // stack depth (frames) of each call of the mocked function
 	// Share > 0: the placeholder of another function of the same signature is used; Pre: functions of that signature (offsets in the group)
 	// that are mocked through the same placeholder, called once and reset before the target is
-	Share int   `json:"share,omitempty"`
+	// Premock > 0: the function is already mocked through the same builder when the origin placeholder is asked for (1: plain
+	// callback, 2: callback with this placeholder, 3: Return stub) - no Reset in between
+	Premock int `json:"premock,omitempty"`
+	Share   int `json:"share,omitempty"`
 	Pre   []int `json:"pre,omitempty"`
 }
 
@@ -138,10 +141,43 @@ func runStep(c *dynCase, k, owner int, depths []int, s *vkit.Stats, prelude bool
 	defer b.Reset()
 	rec := &corpus.Rec{}
 	rec.Hook = func(a []reflect.Value) { rec.Res = ofn.CallOrigin(a) }
+	premocked := false
+	if !prelude && c.Premock > 0 {
+		rec0 := &corpus.Rec{Res: make([]reflect.Value, fn.Type.NumOut())}
+		for i := range rec0.Res {
+			rec0.Res[i] = reflect.Zero(fn.Type.Out(i))
+		}
+		ppv := guard(func() {
+			switch c.Premock {
+			case 1:
+				b.Func(fn.Fn).Apply(fn.MkRepl(rec0))
+			case 2:
+				b.Func(fn.Fn).Origin(ofn.Origin).Apply(fn.MkRepl(rec0))
+			default:
+				vals := make([]interface{}, len(rec0.Res))
+				for i := range vals {
+					vals[i] = rec0.Res[i].Interface()
+				}
+				b.Func(fn.Fn).Return(vals...)
+			}
+		})
+		premocked = ppv == nil
+		if ppv == nil {
+			s.Class("origin-asked-for-while-the-function-is-already-mocked")
+			// the function is mocked now: its bytes differ from pristine until the refusal / reset checks below restore them
+			fnBefore = append([]byte(nil), vkit.Bytes(m.entry, int(m.end-m.entry))...)
+			phBefore = append([]byte(nil), vkit.Bytes(m.ph[0], int(m.ph[1]-m.ph[0]))...)
+		}
+	}
 	pv := guard(func() { b.Func(fn.Fn).Origin(ofn.Origin).Apply(fn.MkRepl(rec)) })
 	where := fmt.Sprintf("%s %s (stack check: %v)", fn.Name, fn.Type, m.stackCheck)
 	if owner != k {
 		where += " with the origin placeholder " + "O" + ofn.Name
+	}
+	if pv != nil && premocked {
+		// a refusal over a live mock: what state the earlier mock is left in is property C02's business (refused-applies unit)
+		s.Class("refused-over-the-earlier-mock(not judged here)")
+		return nil
 	}
 	if pv != nil {
 		// refused: function and placeholder unchanged, function not mocked
@@ -252,6 +288,9 @@ func TestVerifC03Dynamic(t *testing.T) {
 			}
 			c.Name = all[c.Target].Name
 			c.Depths = rapid.SliceOfN(rapid.OneOf(rapid.IntRange(0, 40), rapid.IntRange(0, 700)), 1, 6).Draw(rt, "depths")
+			if rapid.IntRange(0, 3).Draw(rt, "premock?") == 0 {
+				c.Premock = rapid.IntRange(1, 3).Draw(rt, "premock")
+			}
 			if len(groups[all[c.Target].Type]) > 1 {
 				if rapid.Bool().Draw(rt, "shared") {
 					c.Share = rapid.IntRange(1, 5).Draw(rt, "share")
